@@ -58,7 +58,8 @@ def check(tier, seed, only=None):
         rep.bounded.append({"what": "AES-XTS 128/256 enc+dec of the sse, avx and vaes families (every sector length from 16: ciphertext stealing) and AES-CBC "
                                     "128/192/256 (enc x4/x8, dec sse/avx/vaes_avx512): data ranges end at / begin after an unmapped page, raw keys and tweak "
                                     "and expanded key schedules end at one; no fault, inputs unmodified, placement-independent result, decrypt(encrypt(x)) == x, "
-                                    "expanded-key XTS result == raw-key result; the key-expansion routines themselves are not covered",
+                                    "expanded-key XTS result == raw-key result; key expansion 128/192/256 (sse, avx): key and both schedules at page boundaries, "
+                                    "key unmodified, families agree",
                             "label": "bounded", "bound": dx["cmd"], "evaluations": dx["calls"], "distinct_nontrivial": dx["cases"], "agree": dx["ok"],
                             "families": dx["families"], "cmd": dx["cmd"]})
         if not dx["ok"]:
@@ -71,7 +72,7 @@ def check(tier, seed, only=None):
         rep.add_undecided("native AES-GCM guard-page check could not be built/run: %s" % e)
     rep.assumptions.append("RESTRICTED TO C: the NASM kernels (about 80% of the library's loads and stores) are out of CBMC's reach; "
                            "for them C08 is not decided here; bounded native checks: AES-GCM families with guard pages (here), rolling-hash scans (C09), hash managers (C01/C06), "
-                           "multi-hash block functions (C05); AES-XTS (raw and expanded keys) and AES-CBC with guard pages (here); key expansion has none")
+                           "multi-hash block functions (C05); AES-XTS (raw and expanded keys), AES-CBC and key expansion with guard pages (here)")
     rep.notes.append("every object handed to a function under proof is allocated with exactly its documented size, so a one-byte over-read or "
                      "over-write is a failed pointer/bounds obligation; inputs are absent from every assigns clause (frame check)")
     rep.notes.append("mh update/tail/finalize (C05/C10) and rolling init (C09) carry the same pointer/bounds obligations; they are counted under those properties")
